@@ -40,6 +40,13 @@ func tenantScript(c *vcore.Ctx, dir string, tag int) []string {
 		}
 		s = append(s, args...)
 	}
+	// a tenant that covers its tracks: it puts the mount root's modification time back to what it found
+	// (the owner of a directory controls its mtime)
+	coverTracks := src.Bool(1, 3, "restore_root_mtime")
+	if coverTracks {
+		s = append(s, "savemtime", dir)
+		c.Event("restore_root_mtime")
+	}
 	n := 1 + src.Int(10, "nleft")
 	cur := dir
 	for i := 0; i < n; i++ {
@@ -76,6 +83,9 @@ func tenantScript(c *vcore.Ctx, dir string, tag int) []string {
 			// a lingering child keeps a file open and outlives the main process
 			s = append(s, "fork", "2", "sys", "2", "s:"+p, "0x41", "0644", "0", "0", "0", "sleep", "5000")
 		}
+	}
+	if coverTracks {
+		s = append(s, "restoremtime", dir)
 	}
 	s = append(s, "exit", "0")
 	return s
